@@ -163,8 +163,59 @@ func runC13(c *fw.Ctx) {
 				}
 			}
 		}
+		// rule lists far longer than any per-request buffer is likely to be sized for: 300 increments of one column,
+		// 300 appends, and 150 columns touched once each
+		for li, mk := range []func(i int) bt.Rule{
+			func(i int) bt.Rule { return bt.Rule{Fam: "f", Qual: []byte("a"), IsInc: true, Inc: 1} },
+			func(i int) bt.Rule { return bt.Rule{Fam: "f", Qual: []byte("b"), Append: []byte{byte('a' + i%26)}} },
+			func(i int) bt.Rule {
+				return bt.Rule{Fam: "f", Qual: []byte(fmt.Sprintf("q%03d", (i*7)%150)), IsInc: i%2 == 0, Inc: int64(i), Append: []byte("z")}
+			},
+		} {
+			item++
+			if !c.Mine(item) {
+				continue
+			}
+			var rl []bt.Rule
+			for i := 0; i < 300; i++ {
+				r := mk(i)
+				if r.IsInc {
+					r.Append = nil
+				}
+				rl = append(rl, r)
+			}
+			ops := []bt.Op{{Kind: "SetClock", Clock: 5000}, {Kind: "MutateRow", Table: tblT, Key: []byte("r"), Muts: []bt.Mut{mset("f", "a", 1000, be8(41))}},
+				{Kind: "RMW", Table: tblT, Key: []byte("r"), Rules: rl}}
+			m, cl, at, h := runSeq(c, eng, setupT(), ops, false)
+			c.Eval(1)
+			c.Trace(1)
+			c.Trans(1)
+			if m != "" {
+				t := "setup"
+				if at >= 0 {
+					t = c13Tag(&ops[at])
+				}
+				if len(m) > 1200 {
+					m = m[:1200] + "…"
+				}
+				sc := seqCase{Engine: eng, Setup: setupT(), Ops: ops}
+				c.Violate(fmt.Sprintf("C13:%s:%s:%s:long%d", eng, cl, t, li), m, sc, func() string {
+					s, _ := replaySeq(c, "C13", sc, c13Tag)
+					if s != "" {
+						s += fmt.Sprintf(":long%d", li)
+					}
+					return s
+				})
+				continue
+			}
+			if cl != "ambiguous" {
+				c.State(h)
+			}
+			c.Outcome("long-rule-list")
+		}
 		c.Bound(eng+"_max_rule_list_len", ml)
 	}
+	c.Bound("long_rule_lists", 300)
 	c.Bound("rules", len(rules))
 	c.Bound("prior_states", len(priors))
 	c.Bound("clocks", clocks)
